@@ -96,7 +96,7 @@ impl Property for C01 {
             "type-7", "type-8", "type-9", "unknown-tag", "dup-tag", "unsorted", "non-utf8",
             "nonzero-reserved", "nonzero-pad", "empty-payload", "sig-dlmod-0", "sig-dlmod-1", "sig-dlmod-2",
             "sig-dlmod-3", "sig-dlmod-4", "sig-dlmod-5", "sig-dlmod-6", "sig-dlmod-7", "input-bad-magic3",
-            "metadata-accepted",
+            "metadata-accepted", "via-file",
         ]
     }
     fn phases(&self, tier: Tier) -> Vec<Phase<PkgCase>> {
@@ -215,6 +215,35 @@ impl Property for C01 {
             Err(pn) => {
                 o.fail("fixpoint-parse", format!("written bytes make the parser panic: {pn}"));
                 return o;
+            }
+        }
+        // the path based entry points give the same value / bytes (pool items and a 1-in-32 sample)
+        if matches!(case, PkgCase::Pool(_)) || fnv1a(&x) % 32 == 0 {
+            o.label("via-file");
+            let dir = crate::gen::builder::TempDir::new("c01");
+            let inp = dir.0.join("in.rpm");
+            let outp = dir.0.join("out.rpm");
+            if std::fs::write(&inp, &x).is_ok() {
+                match panics::catch(|| (rpm::Package::open(&inp), rpm::PackageMetadata::open(&inp), p.write_file(&outp))) {
+                    Ok((Ok(po), Ok(mo), Ok(()))) => {
+                        if po.metadata != p.metadata || po.content != p.content || mo != p.metadata {
+                            o.fail("open-differs", "Package::open / PackageMetadata::open give a different value than parse on the same bytes");
+                            return o;
+                        }
+                        if std::fs::read(&outp).ok().as_deref() != Some(&w[..]) {
+                            o.fail("write-file-differs", "write_file produced different bytes than write");
+                            return o;
+                        }
+                    }
+                    Ok(other) => {
+                        o.fail("open-differs", format!("path based entry points fail on accepted bytes: open {:?}, metadata open {:?}, write_file {:?}", other.0.map(|_| ()).map_err(|e| e.to_string()), other.1.map(|_| ()).map_err(|e| e.to_string()), other.2.map_err(|e| e.to_string())));
+                        return o;
+                    }
+                    Err(pn) => {
+                        o.fail("open-panic", pn);
+                        return o;
+                    }
+                }
             }
         }
         // metadata-only entry points
